@@ -3,6 +3,7 @@ import SJ.Drv.MachAp
 import SJ.Drv.MachRv
 import SJ.Spec.Canon
 import SJ.Spec.Pos
+import SJ.Spec.Range
 namespace SJ.Drv.C01
 open SJ SJ.Drv SJ.Drv.Mach SJ.Model.Machine
 
@@ -105,6 +106,146 @@ def firstSome : List (Option String) → Option String
   | some x :: _ => some x
   | none :: r => firstSome r
 
+/-! ## the number-range clause judged without the model (`Spec.Range`)
+
+`judgeValue` takes the range clause from `Spec.Canon.expected`, i.e. from `Model.Num`'s conversions. The verdicts below
+use only the recogniser, the other side conditions and `Spec.Range` (exact rational value, `roundNE64`). -/
+
+/-- what the independent oracle knows about one input: its tree (if it is a JSON text), whether every literal is within
+    finite f64 range, and the zone of every literal relative to the default-build band -/
+structure RangeInfo where
+  tree : Spec.Grammar.CST
+  finite : Bool
+  zones : List Spec.Range.Zone
+  lits : List Spec.Grammar.NumParts
+
+def rangeInfo (bs : Bytes) : Option RangeInfo :=
+  (Spec.Rec.recognise bs).map fun t =>
+    let ps := Spec.Range.numsOf t
+    { tree := t, finite := Spec.Range.finiteRangeB t, zones := ps.map fun p => Spec.Range.zoneOf (Spec.Range.litOf p), lits := ps }
+
+/-- the side conditions of C01 other than the number range -/
+def otherSideConditions (cfg : Spec.Canon.Cfg) (byteSource : Bool) (t : Spec.Grammar.CST) : Bool :=
+  (cfg.limitOff || Spec.Grammar.depth t ≤ 127) && Spec.Grammar.surrogatesPaired t && (!byteSource || Spec.Canon.stringsUtf8 t)
+
+def isOutOfRangeObs (impl : String) : Bool :=
+  match impl.splitOn ":" with
+  | ["E", msg, _, _, _] => msg == hexOfBytes (Gen.message .NumberOutOfRange)
+  | _ => false
+
+def firstLitIn (ri : RangeInfo) (z : Spec.Range.Zone) : String :=
+  match (ri.lits.zip ri.zones).find? (·.2 == z) with
+  | some (p, _) => hexOfBytes p.bytes
+  | none => "-"
+
+/-- C01, number range, on one source's outcome: a JSON text meeting the other side conditions must be accepted iff every
+    literal is within finite f64 range (`arbitrary_precision`: always). The message names the zone of the offending
+    literal, so that the known default-build band (`C01-default-range-band`) is told from anything else. -/
+def judgeRange (cfg : Cfg) (srcName : String) (byteSource : Bool) (ri : Option RangeInfo) (impl : String) : Option String :=
+  if impl == "-" || impl == "PANIC" then none else
+  match ri with
+  | none => none
+  | some ri =>
+    if !otherSideConditions (specCfg cfg) byteSource ri.tree then none else
+    let accepted := impl.startsWith "V"
+    if cfg.ap then
+      -- only a NumberOutOfRange rejection is this clause's business (other rejections of valid texts, e.g. the private-token
+      -- reading, are judged by the accept/reject verdict)
+      if accepted || !isOutOfRangeObs impl then none
+      else some s!"C01 {srcName} number range: rejected ({impl}) although arbitrary_precision imposes no range"
+    else if ri.finite && !accepted then
+      if isOutOfRangeObs impl then
+        if ri.zones.contains .bandFinite then
+          some s!"C01 {srcName} number range: the crate rejects a literal inside finite f64 range [band: {firstLitIn ri .bandFinite} lies in [2^1024-2^970-2^972, 2^1024-2^970)]"
+        else some s!"C01 {srcName} number range: the crate rejects a literal inside finite f64 range [no literal within 2 ulp of the threshold]"
+      else none   -- rejected for another reason: judged by the accept/reject verdict, not by the range clause
+    else if !ri.finite && accepted then
+      if ri.zones.contains .above then
+        some s!"C01 {srcName} number range: the crate accepts a literal outside finite f64 range [beyond the band: {firstLitIn ri .above} >= 2^1024+2^972+2^965]"
+      else some s!"C01 {srcName} number range: the crate accepts a literal outside finite f64 range [band: {firstLitIn ri .bandInfinite} lies in [2^1024-2^970, 2^1024+2^972+2^965)]"
+    else none
+
+/-- the number a literal must denote according to the specification alone, or the tolerance it must meet -/
+def judgeLiteral (cfg : Cfg) (p : Spec.Grammar.NumParts) : Option String :=
+  if cfg.ap then none else
+  let l := Spec.Range.litOf p
+  let (num, den) := l.exactClamped (Spec.Range.capOf l)
+  let got := Spec.Canon.numOf (specCfg cfg) p
+  let isInt := l.fracDigits.isEmpty && l.expDigits.isEmpty
+  let h := hexOfBytes p.bytes
+  if isInt && !l.neg && l.sigVal < 2 ^ 64 then
+    if got == some (.pos l.sigVal) then none else some s!"literal {h} must be the unsigned integer it writes"
+  else if isInt && l.neg && 0 < l.sigVal && l.sigVal ≤ 2 ^ 63 then
+    if got == some (.neg (-(l.sigVal : Int))) then none else some s!"literal {h} must be the negative integer it writes"
+  else match got with
+    | none => none                       -- rejected: judged by C01
+    | some (.float b) =>
+      if cfg.fr then
+        if Spec.Ieee.roundNE64 l.neg num den == some b then none
+        else some s!"literal {h}: float_roundtrip must give the nearest-even double of the exact value, got {hex16 b}"
+      else if Spec.Ieee.withinUlps 5 l.neg num den b then none
+      else some s!"literal {h}: the float {hex16 b} is not finite, not signed like the literal or more than 5 ulp from the exact value"
+    | some _ => some s!"literal {h} is not an integer within [i64::MIN, u64::MAX] but denotes one"
+
+/-- C02, numbers: when the implementation returned the denotation, every number literal of the text denotes what the
+    specification (`Spec.Decimal` / `Spec.Ieee`) demands — exact integers within `[i64::MIN, u64::MAX]`, otherwise a float:
+    nearest-even under `float_roundtrip`, finite / signed / within 5 ulp in the default build -/
+def judgeNumbers (cfg : Cfg) (ri : Option RangeInfo) : List String :=
+  match ri with
+  | none => []
+  | some ri => (ri.lits.filterMap (judgeLiteral cfg)).map fun m => "C02 number: " ++ m
+
+/-! ## the numbers of the value the crate returned, judged against the text (no model involved) -/
+
+/-- pairs (number literal of the text, number at the corresponding place of the returned value): arrays position by
+    position; an object entry corresponds to the LAST member of the text whose decoded key is the entry's key -/
+partial def numbersAgainstText (t : Spec.Grammar.CST) (v : JV) : List (Spec.Grammar.NumParts × Num) :=
+  match t, v with
+  | .num p, .num n => [(p, n)]
+  | .arr xs, .arr vs => (xs.zip vs).flatMap fun (x, w) => numbersAgainstText x w
+  | .obj ms, .obj kvs =>
+    kvs.flatMap fun (k, w) =>
+      match ms.reverse.find? (fun m => Spec.Denote.decodeItems m.1 == some k) with
+      | some m => numbersAgainstText m.2 w
+      | none => []
+  | _, _ => []
+
+/-- C02 on one number of the returned value: an integer is the exact value of an integer literal; a float is within
+    5 ulp of the literal's exact value (default build: finite, signed like the literal; the ulp is that of the correctly
+    rounded value, `Spec.Ieee.withinUlps`) resp. *the* nearest-even double (`float_roundtrip`, `Spec.Ieee.roundNE64`) -/
+def judgeNumberValue (cfg : Cfg) (p : Spec.Grammar.NumParts) (n : Num) : Option String :=
+  if cfg.ap then none else
+  let l := Spec.Range.litOf p
+  let h := hexOfBytes p.bytes
+  let isInt := l.fracDigits.isEmpty && l.expDigits.isEmpty
+  match n with
+  | .pos u =>
+    if isInt && !l.neg && u == l.sigVal then none else some s!"C02 integer value of literal {h} is not the integer it writes"
+  | .neg i =>
+    if isInt && l.neg && i == -(l.sigVal : Int) && i < 0 then none else some s!"C02 integer value of literal {h} is not the integer it writes"
+  | .float b =>
+    let (num, den) := l.exactClamped (Spec.Range.capOf l)
+    if isInt && !l.neg && l.sigVal < 2 ^ 64 then some s!"C02 float value of literal {h}: an integer within u64 must be kept exactly"
+    else if isInt && l.neg && 0 < l.sigVal && l.sigVal ≤ 2 ^ 63 then some s!"C02 float value of literal {h}: an integer within i64 must be kept exactly"
+    else if cfg.fr then
+      if Spec.Ieee.roundNE64 l.neg num den == some b then none
+      else some s!"C02 float value of literal {h} is not the nearest double of its exact value (got {hex16 b})"
+    else if Spec.Ieee.withinUlps 5 l.neg num den b then none
+    else some s!"C02 float value of literal {h} is not within 5 ulp of its exact value (got {hex16 b})"
+  | .lit _ => some s!"C02 number of literal {h}: a literal-text number without arbitrary_precision"
+
+/-- every number of the value one source returned, against the text -/
+def judgeReturnedNumbers (cfg : Cfg) (srcName : String) (ri : Option RangeInfo) (impl : String) : List String :=
+  if cfg.ap || !impl.startsWith "V" then [] else
+  match ri, decodeJV (impl.drop 1).toString with
+  | some ri, some v =>
+    if ri.lits.isEmpty then [] else
+    ((numbersAgainstText ri.tree v).filterMap fun (p, n) => judgeNumberValue cfg p n).map fun m =>
+      match m.splitOn "C02 " with
+      | ["", rest] => s!"C02 {srcName}: {rest}"
+      | _ => m
+  | _, _ => []
+
 /-- `pv <cfg> <hex>` / `pi <cfg> <hex>`: parse into Value / IgnoredAny from all three sources -/
 def parseAll (tgt : Tgt) : Handler := fun args impl =>
   match args with
@@ -116,7 +257,13 @@ def parseAll (tgt : Tgt) : Handler := fun args impl =>
         | [s, sl, rd] =>
           let pos := [judgePos "str" bs s, judgePos "slice" bs sl, judgePos "reader" bs rd, judgeSources [s, sl, rd]]
           if tgt = .value then
-            let vs := [judgeValue cfg "str" false bs s, judgeValue cfg "slice" true bs sl, judgeValue cfg "reader" true bs rd].filterMap id
+            let ri := rangeInfo bs
+            let vs := [judgeValue cfg "str" false bs s, judgeValue cfg "slice" true bs sl, judgeValue cfg "reader" true bs rd,
+              judgeRange cfg "str" false ri s, judgeRange cfg "slice" true ri sl, judgeRange cfg "reader" true ri rd].filterMap id
+            let vs := vs ++ (if [s, sl, rd].any (·.startsWith "V") && vs.isEmpty then judgeNumbers cfg ri else [])
+            -- the numbers of the returned value itself against the text: once when the sources agree, else per source
+            let vs := vs ++ (if (s == sl || s == "-") && sl == rd then judgeReturnedNumbers cfg "value" ri sl
+              else judgeReturnedNumbers cfg "str" ri s ++ judgeReturnedNumbers cfg "slice" ri sl ++ judgeReturnedNumbers cfg "reader" ri rd)
             -- a single string literal: the same verdicts are also C05's (decode side)
             let c05 := if (Spec.Rec.skipWs bs).head? == some 0x22 then vs.map fun m => "C05 string literal: " ++ m else []
             vs ++ c05 ++ pos.filterMap id ++ [judgeUtf8 "str" s, judgeUtf8 "slice" sl, judgeUtf8 "reader" rd].filterMap id
